@@ -396,6 +396,22 @@ def run(ctx):
             for name, args, spec in calls(ctx.rng, tg, 1) + current_calls(u):
                 check(ctx, base_text, u, bv, name, args, spec, ("selfref", hk, k_, "p" + port[:2], sch))
             ctx.count("selfref_receivers")
+    # receivers whose PATH has empty segments (leading '//', '///', inner and trailing '//'): they must survive every modifier that
+    # does not target the path - origin()/relative() included
+    for (hk, h), sch, path, (uk, ui) in itertools.product(HOSTS[:5], SCHEMES, ("//a/b", "///deep//x", "//", "/a//b//", "//a/../b//"), UIS[:4]):
+        for port in ("", ":8080"):
+            i += 1
+            if not ctx.mine(i):
+                continue
+            base_text = (sch + ":" if sch else "") + "//" + ui + h + port + path + "?q=1#f"
+            u = guarded(URL, base_text)
+            if is_exc(u):
+                ctx.count("base_rejected")
+                continue
+            bv = vec(u)
+            for name, args, spec in calls(ctx.rng, tg, 0) + current_calls(u):
+                check(ctx, base_text, u, bv, name, args, spec, ("emptyseg", hk, uk, path[:4], sch))
+            ctx.count("empty_segment_receivers")
     ctx.notes["bases"] = i
     # non-canonical raw components kept verbatim by encoded=True (lower-case hex, characters a quoter would escape,
     # invalid UTF-8): a modifier must still carry every component it does not target over byte for byte
